@@ -159,13 +159,15 @@ class FaultPlan:
     max_read        every read returns at most this many bytes
     short_read_at   (k, n): only the k-th read is cut to n bytes
     fail_read_at    (k, status): the k-th read returns the status instead of data
+    fail_reads_from (k, status): the k-th read and every later one return the status (a persistent failure)
     fail_write_at   (k, status): the k-th write is rejected with the status (nothing is written)
     fail_stat_at    (k, status): the k-th path stat fails
     """
 
     def __init__(self, max_read=None, short_read_at=None, fail_read_at=None, fail_write_at=None,
-                 fail_stat_at=None):
+                 fail_stat_at=None, fail_reads_from=None):
         self.max_read = max_read
+        self.fail_reads_from = fail_reads_from
         self.short_read_at = short_read_at
         self.fail_read_at = fail_read_at
         self.fail_write_at = fail_write_at
@@ -191,6 +193,10 @@ class Handle(SFTPHandle):
             p.failed_reads += 1
             p.log.append(("read", offset, length, "status%d" % p.fail_read_at[1]))
             return p.fail_read_at[1]
+        if p.fail_reads_from is not None and p.reads >= p.fail_reads_from[0]:
+            p.failed_reads += 1
+            p.log.append(("read", offset, length, "status%d" % p.fail_reads_from[1]))
+            return p.fail_reads_from[1]
         want = length
         if p.max_read is not None:
             want = min(want, p.max_read)
